@@ -171,11 +171,11 @@ def orderings(T, site, a, b):
     return allowed, foreign
 
 
-def gate(ck, rule, T, fl, pred, a, b, want, name, min_sites=1, why="", absent="violation"):
+def gate(ck, rule, T, fl, pred, a, b, want, name, min_sites=1, why="", absent="violation", only=None):
     """DECISION TABLE: at every selected site the ordering of a and b left possible by the guards on all paths lies within `want`
     (a string over '<', '=', '>').  No recognisable guard at all: violation, or exit 2 when absent='broken' (gate redundant by construction)."""
     a, b, want = T.form(a), T.form(b), set(want)
-    ss = ck.sites(fl, pred, name, min_sites)
+    ss = [s for s in ck.sites(fl, pred, name, min_sites) if only is None or only(s)]
     for s in ss:
         allowed, foreign = orderings(T, s, a, b)
         rel = "(%s) %s (%s)" % (fmt(a), "|".join(sorted(want)), fmt(b))
